@@ -329,3 +329,104 @@ def _mut_drop_late_check(fn):
             n.test = ast.Constant(value=False)
             cnt += 1
     return cnt
+
+
+# ---------------------------------------------------------------- client wrapper: delegation and periodic prolongation
+@unit(name='lock.wrapper', relpath=BAT, qual=['ReplLockManager.isAcquired', 'ReplLockManager.release', 'ReplLockManager._autoAcquireThread', 'ReplLockManager.destroy'],
+      props=['C16'],
+      kind='isAcquired / release / destroy as functions; the body of the `while True` loop of _autoAcquireThread from an arbitrary wrapper state',
+      doc='isAcquired asks the replicated state for this client\'s own id at the current clock reading; release submits a release for this client\'s '
+          'own id (never another client\'s); the prolongation loop submits prolongate(own id, current clock reading) whenever a quarter of the '
+          'auto-unlock time has passed since the last one and a leader is known, at most once per round, never for another client, and stops for '
+          'good once destroy() was called or the main thread ended (so an abandoned lock expires after the auto-unlock time)',
+      assumptions=['A-CLOCK', 'A-REAL'], trusted=['the replicated calls themselves (C02)', 'time.sleep'])
+def lock_wrapper(ctx):
+    mod = source.load(BAT)
+    T = FreshReal('autoUnlockTime')
+    ctx.assume(T > 0)
+    calls = []
+    clock = [FreshReal('t0')]
+
+    def now(I, a, k):
+        t = FreshReal('t')
+        I.ctx.assume(t >= clock[-1])
+        clock.append(t)
+        return t
+
+    def rec(name, ret=None):
+        def f(I, selfv, a, k):
+            calls.append((name, tuple(a), dict(k)))
+            return ret
+        return f
+    held = FreshBool('implSaysHeld')
+    leader_known = FreshBool('leaderKnown')
+    has_so = FreshBool('boundToSyncObj')
+    alive, destroying = FreshBool('mainThreadAlive'), FreshBool('destroying')
+    last = FreshReal('lastProlongateTime')
+    ctx.assume(last <= clock[0])
+    so = ctx.alloc(PObj('SyncObj', {}))
+    impl = ctx.alloc(PObj('_ReplLockManagerImpl', {'_syncObj': Opt(Not(has_so), so)}))
+    thr = ctx.alloc(PObj('Thread', {}))
+    mgr = ctx.alloc(PObj('ReplLockManager', {'_ReplLockManager__lockImpl': impl, '_ReplLockManager__selfID': 'me', '_ReplLockManager__autoUnlockTime': T,
+                                             '_ReplLockManager__mainThread': thr, '_ReplLockManager__destroying': destroying,
+                                             '_ReplLockManager__lastProlongateTime': last, '_ReplLockManager__initialised': ctx.alloc(PObj('Event', {}))}))
+    reg = {'_ReplLockManagerImpl.isAcquired': rec('isAcquired', held), '_ReplLockManagerImpl.release': rec('release'),
+           '_ReplLockManagerImpl.prolongate': rec('prolongate'), 'Thread.is_alive': lambda I, s, a, k: alive,
+           'SyncObj._getLeader': lambda I, s, a, k: Opt(Not(leader_known), NodeV(0)), 'Event.set': lambda I, s, a, k: None}
+    I = Interp(ctx, registry=reg, externals={'time.time': now, 'time.sleep': lambda I_, a, k: None, 'float': lambda I_, a, k: a[0]})
+    I.cur_mod = mod
+    ctx.universe = 2
+    lid = Opaque('lock', FreshInt('lock'))
+    # -- isAcquired
+    fn, ci = mod.find('ReplLockManager.isAcquired')
+    r = I.call_funcdef(fn, mod, 'ReplLockManager', mgr, [lid], {}, None, 'ReplLockManager.isAcquired')
+    q = [c for c in calls if c[0] == 'isAcquired']
+    ctx.prove(len(q) == 1 and q[0][1][0] is lid and q[0][1][1] == 'me' and q[0][1][2] is clock[-1], 'C16:wrapper.isAcquired-asks-for-own-id-at-current-time')
+    ctx.prove(Iff(I.truth_expr(r), held), 'C16:wrapper.isAcquired-returns-the-replicated-answer')
+    # -- release
+    del calls[:]
+    fn, ci = mod.find('ReplLockManager.release')
+    cb = Callable_('user:cb')
+    I.call_funcdef(fn, mod, 'ReplLockManager', mgr, [lid], {'callback': cb}, None, 'ReplLockManager.release')
+    q = [c for c in calls if c[0] == 'release']
+    ctx.prove(len(q) == 1 and q[0][1][0] is lid and q[0][1][1] == 'me', 'C16:wrapper.release-names-own-id-only')
+    ctx.prove(len(q) == 1 and q[0][2].get('callback') is cb, 'C16+C02:wrapper.release-forwards-the-callback')
+    ctx.prove(not any(c[0] in ('prolongate', 'isAcquired') for c in calls), 'C16:wrapper.release-does-nothing-else')
+    # -- one round of the prolongation loop
+    del calls[:]
+    fn, ci = mod.find('ReplLockManager._autoAcquireThread')
+    loops = [s for s in ast.walk(fn) if isinstance(s, ast.While)]
+    if len(loops) != 1:
+        raise Undecided('the loop of _autoAcquireThread was not located')
+    fr = Frame(mod, 'ReplLockManager', 'ReplLockManager._autoAcquireThread')
+    fr.locals['self'] = mgr
+    from pyvc.interp import _Break, _Continue
+    n0 = len(clock)
+    left = False
+    try:
+        I.exec_block(loops[0].body, fr)
+    except _Break:
+        left = True
+    except _Continue:
+        pass
+    pro = [c for c in calls if c[0] == 'prolongate']
+    ctx.prove(len(pro) <= 1, 'C16:wrapper.at-most-one-prolongation-per-round')
+    stop = Or(Not(alive), destroying)
+    ctx.prove(Iff(stop, True) if left else Not(stop), 'C16:wrapper.loop-ends-iff-destroyed-or-main-thread-gone')
+    if left:
+        ctx.prove(len(pro) == 0, 'C16:wrapper.no-prolongation-after-destroy')
+    t_check = clock[n0] if len(clock) > n0 else None
+    if pro:
+        a = pro[0][1]
+        ctx.prove(a[0] == 'me', 'C16:wrapper.prolongs-own-id-only')
+        ctx.prove(a[1] is clock[-1] or any(a[1] is t for t in clock[n0:]), 'C16:wrapper.prolongation-stamped-with-a-current-clock-reading')
+        ctx.prove(And(has_so, leader_known), 'C16:wrapper.prolongs-only-with-a-known-leader')
+        ctx.prove(t_check - last >= T / 4, 'C16:wrapper.prolongation-not-more-often-than-a-quarter-of-the-unlock-time')
+        f = ctx.cell(mgr).fields
+        ctx.prove(f['_ReplLockManager__lastProlongateTime'] >= t_check, 'C16:wrapper.last-prolongation-time-recorded')
+    elif not left and t_check is not None:
+        ctx.prove(Or(t_check - last < T / 4, Not(has_so), Not(leader_known)), 'C16:wrapper.prolongs-when-a-quarter-of-the-unlock-time-has-passed')
+    # -- destroy
+    fn, ci = mod.find('ReplLockManager.destroy')
+    I.call_funcdef(fn, mod, 'ReplLockManager', mgr, [], {}, None, 'ReplLockManager.destroy')
+    ctx.prove(ctx.cell(mgr).fields['_ReplLockManager__destroying'] is True, 'C16:wrapper.destroy-stops-the-prolongation-loop')
